@@ -811,3 +811,118 @@ Definition comp_res_eqb (r : res (list vec * list vec)) (vin' bs : list vec) : b
   match r with Ok (v, b) => vlist_approxb v vin' && vlist_approxb b bs | Err _ => false end.
 Definition comp_err_eqb (r : res (list vec * list vec)) (e : err) : bool :=
   match r with Err e' => err_eqb e e' | Ok _ => false end.
+
+(* ---------- round 6: state that the helpers read through caches between calls ----------
+   (a) Stream.link_with / Stream.unlink / Stream.imass before adjust_moisture_content.  The ID branch of the helper
+   works through retentate.imass / permeate.imass, a view kept in imol._data_cache['mass'] that wraps the flow vector
+   object it was made from.  [ls_data] names the flow vector object the stream uses now, [ls_view] the object the cached
+   mass view wraps (None: no view cached yet), [ls_next] the next fresh object name.
+   LMass: the stream's imass is read (view made if absent).  LLink: fresh.link_with(stream): the partner takes over the
+   stream's flow vector and its _data_cache dictionary, the stream itself is untouched.  LUnlink: stream.unlink():
+   imol._data_cache = {} and imol.data = imol.data.copy(). *)
+Record lstate := mkL { ls_data : nat; ls_view : option nat; ls_next : nat }.
+Inductive lop := LMass | LLink | LUnlink.
+Definition view_target (s : lstate) : nat := match ls_view s with Some d => d | None => ls_data s end.
+Definition lstep (s : lstate) (o : lop) : lstate :=
+  match o with
+  | LMass => mkL (ls_data s) (Some (view_target s)) (ls_next s)
+  | LLink => s
+  | LUnlink => mkL (ls_next s) None (S (ls_next s))
+  end.
+Definition lrun (s : lstate) (ops : list lop) : lstate := fold_left lstep ops s.
+Definition linit : lstate := mkL 0 None 1.
+Definition view_okb (s : lstate) : bool := Nat.eqb (view_target s) (ls_data s).
+(* None: the mass view wraps another flow vector than the stream's own, the ID branch would write elsewhere *)
+Definition adjust_moisture_hist (mws : vec) (R P : strm) (opsR opsP : list lop) (w : nat) (mc : Q) (by_mass : bool)
+           (mwc : Q) (strict : option bool) : option mres :=
+  if negb by_mass || (view_okb (lrun linit opsR) && view_okb (lrun linit opsP))
+  then Some (adjust_moisture mws R P w mc by_mass mwc strict) else None.
+Definition omres_eqb (m : option mres) (rl ro pl po : vec) (e : option err) : bool :=
+  match m with Some m' => mres_eqb m' rl ro pl po e | None => false end.
+
+(* (b) separations.vle with a caller-owned multi_stream over a history of calls.  MaterialIndexer keeps class-level
+   index caches, one per (phases, chemicals): key (here a phase) -> row NUMBER in the sorted phase tuple.  An indexer
+   points at the cache of its phase tuple ([vs_ckey]); _expand_phases (reached from copy_like when the feed carries a phase
+   the holder lacks) re-sorts the rows and ends with _set_cache(), which re-points the indexer.  Rows are kept per phase
+   code (four slots, absent phases zero) as in [mstate]. *)
+Definition pcache := list (nat * nat).
+Definition pcaches := list (list bool * pcache).
+Fixpoint pc_find (c : pcache) (p : nat) : option nat :=
+  match c with [] => None | (k, r) :: t => if Nat.eqb k p then Some r else pc_find t p end.
+Fixpoint caches_get (cs : pcaches) (key : list bool) : pcache :=
+  match cs with [] => [] | (k, c) :: t => if blist_eqb k key then c else caches_get t key end.
+Record vstate := mkVS { vs_present : list bool; vs_rows : list vec; vs_ckey : list bool; vs_caches : pcaches }.
+
+Definition present_codes (present : list bool) : list nat := filter (nthb present) all_phases.
+(* PhaseIndexer.__call__: position of the phase (or of its other-case twin) in the sorted tuple *)
+Definition pos_of (present : list bool) (p : nat) : nat :=
+  length (filter (nthb present) (firstn (row_of present p) all_phases)).
+Definition phase_at (present : list bool) (r : nat) : option nat := nth_error (present_codes present) r.
+
+(* _get_index_data for a phase key: cached row number, else computed from the phase indexer and cached *)
+Definition vs_index (s : vstate) (p : nat) : nat * vstate :=
+  let c := caches_get (vs_caches s) (vs_ckey s) in
+  match pc_find c p with
+  | Some r => (r, s)
+  | None => let r := pos_of (vs_present s) p in
+            (r, mkVS (vs_present s) (vs_rows s) (vs_ckey s) ((vs_ckey s, (p, r) :: c) :: vs_caches s))
+  end.
+(* ms.imol[p] *)
+Definition vs_read (s : vstate) (p : nat) : res vec * vstate :=
+  let '(r, s') := vs_index s p in
+  match phase_at (vs_present s') r with
+  | Some q => (Ok (nthv (vs_rows s') q), s')
+  | None => (Err EIndex, s')
+  end.
+
+Definition vs_expand (s : vstate) (other : list bool) : vstate :=
+  if existsb (fun p => nthb other p && negb (nthb (vs_present s) p)) all_phases then
+    let np := map (fun p => nthb (vs_present s) p || nthb other p) all_phases in
+    mkVS np (vs_rows s) np (vs_caches s)                                   (* self._set_cache() *)
+  else s.
+
+Inductive vfeed := FStream (k : nat) (v : vec) | FMulti (fp : list bool) (frows : list vec).
+(* PhaseIndexer._compatibility: the sorted phases in lower case *)
+Definition compat (a : list bool) : list nat := map (fun p => if Nat.eqb p 0 then 2%nat else p) (present_codes a).
+Definition zero_rows (n : nat) : list vec := repeat (vzero n) 4.
+
+(* MaterialIndexer.copy_like(other) for the same chemicals *)
+Definition vs_copy_like (n : nat) (s : vstate) (f : vfeed) : vstate :=
+  match f with
+  | FStream k v =>
+    let s1 := if in_indexer (vs_present s) k then s else vs_expand s (map (Nat.eqb k) all_phases) in
+    mkVS (vs_present s1) (upd (zero_rows n) (row_of (vs_present s1) k) v) (vs_ckey s1) (vs_caches s1)
+  | FMulti fp frows =>
+    if blist_eqb fp (vs_present s) then mkVS (vs_present s) frows (vs_ckey s) (vs_caches s) else
+    let s1 := if list_eqb Nat.eqb (compat fp) (compat (vs_present s)) then s else vs_expand s fp in
+    mkVS (vs_present s1)
+         (fold_left (fun acc p => upd acc (row_of (vs_present s1) p) (nthv frows p)) (present_codes fp) (zero_rows n))
+         (vs_ckey s1) (vs_caches s1)
+  end.
+
+Definition vs_seen (s : vstate) : list vec := map (nthv (vs_rows s)) (present_codes (vs_present s)).
+
+(* one vle(feed, vap, liq, multi_stream=ms): copy_like, the flash oracle writes the g and l rows (keep = false: it
+   empties every other row as well), the wrapper reads ms.imol['g'] and ms.imol['l'].  Holder must have g and l. *)
+Record vcall := mkVC { vc_feed : vfeed; vc_eq : list vec -> vec * vec; vc_keep : bool }.
+Definition vle_call (n : nat) (s : vstate) (c : vcall) : res (vec * vec) * list vec * vstate :=
+  let s1 := vs_copy_like n s (vc_feed c) in
+  let seen := vs_seen s1 in
+  let '(g, l) := vc_eq c seen in
+  let base := if vc_keep c then vs_rows s1 else zero_rows n in
+  let s2 := mkVS (vs_present s1) (upd (upd base 1 g) 2 l) (vs_ckey s1) (vs_caches s1) in
+  let '(rg, s3) := vs_read s2 1 in
+  let '(rl, s4) := vs_read s3 2 in
+  (do a <- rg; do b <- rl; Ok (a, b), seen, s4).
+
+Fixpoint vle_hist (n : nat) (s : vstate) (cs : list vcall) : list (res (vec * vec) * list vec) :=
+  match cs with
+  | [] => []
+  | c :: t => let '(r, seen, s') := vle_call n s c in (r, seen) :: vle_hist n s' t
+  end.
+Definition vinit (present : list bool) (rows : list vec) (caches : pcaches) : vstate := mkVS present rows present caches.
+
+Definition vres_eqb (a b : res (vec * vec) * list vec) : bool :=
+  res_eqb (fun x y => vapproxb (fst x) (fst y) && vapproxb (snd x) (snd y)) (fst a) (fst b)
+  && vlist_approxb (snd a) (snd b).
+Definition vhist_eqb (a b : list (res (vec * vec) * list vec)) : bool := list_eqb vres_eqb a b.
